@@ -772,6 +772,15 @@ class FuncAnalysis:
                 if dt and ast.unparse(dt[0].value) == "object":
                     return allargs.holder()
                 return FRESH
+            if short == "einsum":
+                # one operand and no summed / repeated-output index: may be a view (diagonal, transpose); otherwise numpy
+                # allocates the result
+                arrs = [a for a in e.args if not (isinstance(a, ast.Constant) and isinstance(a.value, str))]
+                spec = e.args[0].value if e.args and isinstance(e.args[0], ast.Constant) and isinstance(e.args[0].value, str) else None
+                if len(arrs) > 1 or any(k.arg == "out" for k in e.keywords) is False and spec is not None and "->" in spec and \
+                        set(spec.split("->")[0].replace(" ", "")) != set(spec.split("->")[1].replace(" ", "")):
+                    return FRESH
+                return allargs
             if short in VIEW_NAMES:
                 return allargs
             if short in ("zeros", "empty", "full") and any(ast.unparse(k.value) == "object" for k in e.keywords if k.arg == "dtype"):
@@ -815,6 +824,12 @@ class FuncAnalysis:
                 # calling a caller-supplied function (boys_func): assumed pure w.r.t. its arguments;
                 # every implementation in gbasis is analysed on its own
                 return FRESH
+            o = f.outer
+            while o is not None:
+                if nm in o.params or nm in {n.id for n in ast.walk(o.node) if isinstance(n, ast.Name) and isinstance(n.ctx, ast.Store)}:
+                    # a callable captured from the enclosing function (decorator idiom): same assumption
+                    return FRESH
+                o = o.outer
             self.eff.unknown_calls.append((f, e))
             return FRESH
         self.eff.unknown_calls.append((f, e))
